@@ -4,6 +4,7 @@ import Driver.Store
 import Driver.Sio
 import Driver.Queue
 import Driver.Srv
+import Driver.Rooms
 /-
   Line-protocol driver: one request per line on stdin, one canonical answer per line on stdout.
   The same request lines are executed by the Go harness against the real implementation.
@@ -20,6 +21,7 @@ def step (line : String) : String :=
   | "sio" :: rest => sioLine rest
   | "q" :: rest => qLine rest
   | "srv" :: rest => srvLine rest
+  | "rm" :: rest => rmLine rest
   | _ => "bad-op"
 
 partial def loop (h : IO.FS.Stream) (out : IO.FS.Stream) : IO Unit := do
